@@ -12,11 +12,16 @@ import FitModel.Generated.ProfileTables
 -- @family typednil Drv.Typed.hNil
 -- @family typedseq Drv.Typed.hSeq
 -- @family typedmark Drv.Typed.hMark
+-- @family typednils Drv.Typed.hNils
 /-!
 Driver for the family `typed` (C13): the generic model `Fit.Typed.ofMesg` / `toMesg` instantiated with the
 regenerated per-message tables (`Fit.Gen.Mesgdef.tables`); the standard factory's `CreateField` is read from the
 regenerated dump of the factory (`Fit.Gen.Prof.mesgs`). Syntax: harness/fam_typed.go.
-`--spec`: `typedrt` → `typedNormal`; `typedid` → the struct itself when `inRange` (else n/a).
+`--spec`: `typedrt` → `typedNormalFull` (what the property demands; equal to `typedNormal`, what the code does, outside the
+classes of KF-C13-1 / KF-C13-2, which `--kf` names); `typedid` → the struct itself when `inRange` (else n/a).
+`typednils`: as `typedrt`, but every EMPTY array value of the message is handed to the code as a proto.Value built from a
+nil Go slice; for the accessors (`SliceUint8()` … on a nil slice return nil) that is the invalid value, so the model
+replaces the value of every stored field by `.invalid` (`nilify`); unknown fields are kept verbatim and print the same.
 -/
 namespace Drv.Typed
 open Drv Fit.Value Fit.Msg Fit.Typed
@@ -105,12 +110,23 @@ def parseStruct (T : MesgTable) (txt : String) : Option Struct :=
 
 /-! ### handlers -/
 
-def fromMesg (withStruct spec : Bool) (args : List String) : String :=
+def isEmptyArray : Value → Bool
+  | .sliceString vs => vs.isEmpty
+  | .sliceBool vs | .sliceInt8 vs | .sliceUint8 vs | .sliceInt16 vs | .sliceUint16 vs | .sliceInt32 vs
+  | .sliceUint32 vs | .sliceInt64 vs | .sliceUint64 vs | .sliceFloat32 vs | .sliceFloat64 vs => vs.isEmpty
+  | _ => false
+
+/-- a proto.Value built from a nil Go slice, as the typed accessors see it -/
+def nilify (T : MesgTable) (m : Message) : Message :=
+  { m with fields := m.fields.map fun f => if stored T f && isEmptyArray f.value then { f with value := .invalid } else f }
+
+def fromMesgG (nils withStruct spec : Bool) (args : List String) : String :=
   match args with
   | [name, o, m] =>
     match tableOf name, parseOpts o, parseMessage m with
-    | some T, some (opts, fac), some msg =>
-      if spec then printMessage (typedNormal T (facField fac T.num) opts msg) else
+    | some T, some (opts, fac), some msg0 =>
+      let msg := if nils then nilify T msg0 else msg0
+      if spec then printMessage (typedNormalFull T (facField fac T.num) opts msg) else
       match ofMesg T msg with
       | .panic => "panic"
       | .ok st =>
@@ -118,6 +134,20 @@ def fromMesg (withStruct spec : Bool) (args : List String) : String :=
         if withStruct then printStruct T st ++ " " ++ out else out
     | _, _, _ => "bad-op"
   | _ => "bad-op"
+
+def fromMesg (withStruct spec : Bool) (args : List String) : String := fromMesgG false withStruct spec args
+
+/-- the known-finding classes of a message → struct → message op -/
+def kfOf (nils : Bool) (args : List String) : String :=
+  match args with
+  | [name, _, m] =>
+    match tableOf name, parseMessage m with
+    | some T, some msg0 =>
+      let msg := if nils then nilify T msg0 else msg0
+      let ids := (if hasForeign T msg then ["KF-C13-1"] else []) ++ (if hasStrayMark T msg then ["KF-C13-2"] else [])
+      if ids.isEmpty then "-" else ",".intercalate ids
+    | _, _ => "-"
+  | _ => "-"
 
 def structToMesg (args : List String) : String :=
   match args with
@@ -196,7 +226,17 @@ def hRT : Handler := fun r =>
     | "bad-op" => "n/a"
     | "panic" => "n/a"      -- a nil FieldBase is outside the property's quantifier
     | _ => fromMesg false true r.args
-  | .kf => "-"
+  | .kf => kfOf false r.args
+  | .prop => "n/a"
+def hNils : Handler := fun r =>
+  match r.mode with
+  | .model => fromMesgG true true false r.args
+  | .spec => match fromMesgG true false false r.args with
+    | "bad-op" => "n/a"
+    | "panic" => "n/a"
+    | _ => match fromMesgG true true false r.args with
+      | s => (s.splitOn " ").head! ++ " " ++ fromMesgG true false true r.args
+  | .kf => kfOf true r.args
   | .prop => "n/a"
 def hSM : Handler := modelOnly structToMesg
 def hID : Handler := fun r =>
